@@ -10,6 +10,7 @@ import (
 	"encoding/json"
 	"fmt"
 	"os"
+	"strings"
 
 	"github.com/imroc/req/v3/verifharness/hk"
 )
@@ -103,6 +104,19 @@ func genBinding(rng *hk.Rand, status int) *progSpec {
 	t := toutSpec{Status: status, B: genBody(rng)}
 	if status == 401 && rng.Chance(50) {
 		t.Challenge = "bad"
+	}
+	if rng.Chance(25) {
+		p.UmCustom = true
+		if rng.Chance(50) {
+			t.B.UmErr = 700
+			t.B.Body += " " // unique key for the custom functions' table
+		}
+	}
+	if rng.Chance(15) {
+		p.Transformer = true
+		if rng.Chance(50) && t.B.Body != "" {
+			t.B.ReadErr = 800
+		}
 	}
 	p.Attempts = []attemptSpec{{T: t}}
 	return p
@@ -256,6 +270,32 @@ func genPipeline(rng *hk.Rand) *progSpec {
 	}
 	if regime == 2 && rng.Chance(4) {
 		p.ReqErr = 900
+	}
+	if rng.Chance(20) {
+		p.UmCustom = true
+		for a := range p.Attempts {
+			if regime != 0 && rng.Chance(25) && p.Attempts[a].T.Fail == 0 {
+				p.Attempts[a].T.B.UmErr = tg.next()
+				p.Attempts[a].T.B.Body += strings.Repeat(" ", a+1)
+			}
+		}
+	}
+	if rng.Chance(15) {
+		p.Transformer = true // read errors scripted above are then raised by the transformer
+		seen := map[string]bool{}
+		for a := range p.Attempts { // the transformer's table is keyed by body: keep failing bodies unique
+			b := &p.Attempts[a].T.B
+			if b.ReadErr != 0 {
+				b.Body += strings.Repeat("\t", a+1)
+			}
+			if seen[b.Body] && b.ReadErr == 0 {
+				b.Body += strings.Repeat("\n", a+1)
+			}
+			seen[b.Body] = true
+		}
+	}
+	if rng.Chance(4) && p.BodyMode == "none" && p.ReqErr == 0 && !p.OddForm {
+		p.Unreplayable = true
 	}
 	if rng.Chance(3) && p.BodyMode == "none" && p.ReqErr == 0 {
 		p.OddForm = true
